@@ -49,13 +49,13 @@ func (v viewStore) Has(key []byte) (bool, error) {
 	return val != nil, err
 }
 func (v viewStore) NewIterator(prefix []byte) scommon.StoreIterator { return v.o.NewIterator(prefix) }
-func (v viewStore) Put(key []byte, value []byte) error               { panic("viewStore is read-only") }
-func (v viewStore) Delete(key []byte) error                          { panic("viewStore is read-only") }
-func (v viewStore) NewBatch()                                        { panic("viewStore is read-only") }
-func (v viewStore) BatchPut(key []byte, value []byte)                { panic("viewStore is read-only") }
-func (v viewStore) BatchDelete(key []byte)                           { panic("viewStore is read-only") }
-func (v viewStore) BatchCommit() error                               { panic("viewStore is read-only") }
-func (v viewStore) Close() error                                     { return nil }
+func (v viewStore) Put(key []byte, value []byte) error              { panic("viewStore is read-only") }
+func (v viewStore) Delete(key []byte) error                         { panic("viewStore is read-only") }
+func (v viewStore) NewBatch()                                       { panic("viewStore is read-only") }
+func (v viewStore) BatchPut(key []byte, value []byte)               { panic("viewStore is read-only") }
+func (v viewStore) BatchDelete(key []byte)                          { panic("viewStore is read-only") }
+func (v viewStore) BatchCommit() error                              { panic("viewStore is read-only") }
+func (v viewStore) Close() error                                    { return nil }
 
 type forkResult struct {
 	ok       bool
